@@ -4,11 +4,13 @@ import json
 import sys
 
 pid = sys.argv[1]
+tag = sys.argv[2] if len(sys.argv) > 2 else pid          # directory suffix (second rounds use e.g. C15r2)
+avoid = sys.argv[3] if len(sys.argv) > 3 else ""         # one-line descriptions of changes already delivered in earlier rounds
 p = next(json.loads(l) for l in open("/verif/properties.jsonl") if json.loads(l)["id"] == pid)
 print(f"""You are helping to evaluate a verification effort by writing realistic *breaking changes* (seeded faults) for an open-source
 Python project, hephaestus (a program generator / compiler-testing tool). You work ONLY inside your own scratch git worktree of the
-project at /tmp/wt_{pid} (a detached checkout; run things there with `cd /tmp/wt_{pid} && /venv/bin/python ...`). Do not read or touch
-/repo, /verif or any other directory outside /tmp/wt_{pid} and your output directory /tmp/mut_{pid}. No network is available.
+project at /tmp/wt_{tag} (a detached checkout; run things there with `cd /tmp/wt_{tag} && /venv/bin/python ...`). Do not read or touch
+/repo, /verif or any other directory outside /tmp/wt_{tag} and your output directory /tmp/mut_{tag}. No network is available.
 
 The semantic property that your changes must break:
 
@@ -21,7 +23,7 @@ The semantic property that your changes must break:
 Task: produce TWO independent changes (different mechanisms, different code sites if possible) to the project's source code, each of which
   (a) breaks the property above for some inputs,
   (b) still lets the project import/run, and still passes the project's existing test suite
-      (`cd /tmp/wt_{pid} && /venv/bin/python -m pytest -q -p no:cacheprovider tests` must still show 161 passed), and
+      (`cd /tmp/wt_{tag} && /venv/bin/python -m pytest -q -p no:cacheprovider tests` must still show 161 passed), and
   (c) needs something specific to manifest - a particular multi-step sequence of operations, an unusual input shape, a particular
       configuration/switch, a specific interleaving or history, or two cooperating sites that each look fine alone - i.e. NOT a change that
       ordinary use would expose at once (not "always return False", not a crash on every call). Think of the kind of plausible bug a
@@ -29,7 +31,7 @@ Task: produce TWO independent changes (different mechanisms, different code site
       a cache that is not reset, a wrong loop variable, a boundary case.
 Keep each change small (a few lines). Do not edit tests. Do not add new files to the project for the change itself.
 
-For each change i in (1, 2) write into /tmp/mut_{pid}/m<i>/ :
+For each change i in (1, 2) write into /tmp/mut_{tag}/m<i>/ :
   - patch.diff : output of `git diff` for that change alone (relative to the worktree's HEAD), applicable with `git apply` in a clean checkout;
   - demo.py    : a small self-contained program (run as `cd <checkout> && /venv/bin/python /path/to/demo.py`, it may `sys.path.insert(0, os.getcwd())`)
                  that exits 0 on the unchanged code and exits non-zero (failing an assertion that states the property) with the change applied.
@@ -38,4 +40,5 @@ For each change i in (1, 2) write into /tmp/mut_{pid}/m<i>/ :
                   "files": [...]}}
 Verify all of (a)-(c) yourself: run the test suite with each change applied, run demo.py with and without the change (use `git stash` /
 `git checkout -- .` in the worktree to switch), and leave the worktree clean (`git checkout -- .`) when you finish.
+{("Changes that were already delivered by someone else and must NOT be repeated (find other mechanisms at other code sites): " + avoid) if avoid else ""}
 Finally reply with a short summary of the two changes and what you verified. If you cannot find a second change, deliver one.""")
